@@ -1154,7 +1154,7 @@ func (a alt) String() string {
 	switch a.kind {
 	case "field", "wire":
 		return fmt.Sprintf("%s.%d.%d", a.kind, a.a, a.b)
-	case "share", "val", "dom", "fork", "idx", "key":
+	case "share", "val", "dom", "fork", "idx", "key", "xsig":
 		return fmt.Sprintf("%s.%d", a.kind, a.a)
 	}
 	return a.kind
@@ -1698,6 +1698,34 @@ func parseVCOp(f []string) vcOp {
 	return o
 }
 
+// shareContent makes dst sign the same message as src where the signed message does not name the validator
+// (sync committee message: slot and block root; attestation: the attestation data).
+func shareContent(kind int, dst, src *sample) {
+	switch kind {
+	case kSyncMsg:
+		d, ok1 := dst.obj.(*altair.SyncCommitteeMessage)
+		s, ok2 := src.obj.(*altair.SyncCommitteeMessage)
+		if ok1 && ok2 {
+			d.Slot, d.BeaconBlockRoot = s.Slot, s.BeaconBlockRoot
+		}
+	case kAtt:
+		dv, ok1 := dst.obj.(*eth2spec.VersionedAttestation)
+		sv, ok2 := src.obj.(*eth2spec.VersionedAttestation)
+		if ok1 && ok2 {
+			dd, _, okd := p0AttOf(dv)
+			sd, _, oks := p0AttOf(sv)
+			if okd && oks && dd != nil && sd != nil {
+				idx := dd.Index
+				*dd = *sd
+				dd.Index = idx
+				if dv.Version >= eth2spec.DataVersionElectra {
+					dd.Index = sd.Index // the committee is outside the signed data from electra on
+				}
+			}
+		}
+	}
+}
+
 func (e *episode) execVC(run *hx.Run, o vcOp) {
 	ctx := context.Background()
 	cl := e.cl
@@ -1765,6 +1793,22 @@ func (e *episode) execVC(run *hx.Run, o vcOp) {
 			}
 		} else {
 			run.Case(fmt.Sprintf("vc/%s/v%d%v/%s", o.method, ba.ver, ba.blinded, it.alt.kind))
+		}
+	}
+
+	// 1b. cross signatures: item i with alteration xsig.K carries the signed content of item K (where the
+	// content does not name the validator) and the signature validator K's share would make over it; a
+	// pair pointing at each other is invalid entry by entry although the sum of the two signatures
+	// verifies under the sum of the two public shares
+	for i, it := range o.items {
+		if it.alt.kind != "xsig" || int(it.alt.a) >= len(o.items) || int(it.alt.a) == i {
+			continue
+		}
+		k := int(it.alt.a)
+		shareContent(kind, samples[i], samples[k])
+		plan := signPlan{secret: cl.secretFor(o.items[k].val, o.node), dom: -1, forkEpoch: -1}
+		if sig, ok := signView(samples[i].view(), plan); ok {
+			samples[i].setSig(sig)
 		}
 	}
 
@@ -2602,14 +2646,15 @@ func (g *gen) systematicVC(method string) {
 		if isBatch(method) && g.cfg.m >= 2 {
 			other := (val + 1 + g.r.Intn(g.cfg.m-1)) % g.cfg.m
 			a, b := base, base
-			a.alt = alt{kind: "val", a: uint64(other)}
-			b.val, b.alt = other, alt{kind: "val", a: uint64(val)}
+			a.alt = alt{kind: "xsig", a: 1}
+			b.val, b.alt = other, alt{kind: "xsig", a: 0}
 			g.vc(vcOp{method: method, node: node, nsub: 1 + g.r.Intn(2), fail: -1, seed: g.seed(), items: []itemSpec{a, b}})
 			g.vc(vcOp{method: method, node: node, nsub: 1, fail: -1, seed: g.seed(), items: []itemSpec{b, a}})
 			if g.cfg.m >= 3 {
 				third := base
 				for third.val = 0; third.val == val || third.val == other; third.val++ {
 				}
+				a.alt.a, b.alt.a = 2, 1
 				g.vc(vcOp{method: method, node: node, nsub: 1, fail: -1, seed: g.seed(), items: []itemSpec{third, a, b}})
 			}
 		}
